@@ -11,17 +11,17 @@ open Sonic.Model.Number
 
 theorem isE_iff (c : Nat) : isE c = true ↔ (c = 101 ∨ c = 69) := by simp [isE]
 
-theorem capAcc_zero (ds : List Nat) (hd : ∀ c ∈ ds, isD c = true) (h : digitsVal ds < 100000) :
+theorem capAcc_zero (ds : List Nat) (hd : ∀ c ∈ ds, isD c = true) (h : digitsVal ds < 10000000000000000) :
     capAcc 0 ds = (digitsVal ds : Int) := by
   have := capAcc_eq ds hd 0 h
   simpa [digitsVal_eq] using this
 
 theorem capAcc_zero_bound (ds : List Nat) (hd : ∀ c ∈ ds, isD c = true) :
-    0 ≤ capAcc 0 ds ∧ capAcc 0 ds < 100000 := capAcc_bound ds hd 0 (by omega) (by omega)
+    0 ≤ capAcc 0 ds ∧ capAcc 0 ds < 10000000000000000 := capAcc_bound ds hd 0 (by omega) (by omega)
 
-/-- beyond the cap the loop result saturates in `[10000, 99999]` -/
-theorem capAcc_big (ds : List Nat) (hd : ∀ c ∈ ds, isD c = true) (a : Nat) (ha : a < 100000)
-    (h : 10000 ≤ a ∨ 100000 ≤ accDigits a ds) : 10000 ≤ capAcc (a : Int) ds := by
+/-- beyond the cap the loop result saturates in `[10^15, 10^16)` -/
+theorem capAcc_big (ds : List Nat) (hd : ∀ c ∈ ds, isD c = true) (a : Nat) (ha : a < 10000000000000000)
+    (h : 1000000000000000 ≤ a ∨ 10000000000000000 ≤ accDigits a ds) : 1000000000000000 ≤ capAcc (a : Int) ds := by
   induction ds generalizing a with
   | nil =>
     simp only [capAcc, List.foldl_nil]
@@ -32,7 +32,7 @@ theorem capAcc_big (ds : List Nat) (hd : ∀ c ∈ ds, isD c = true) (a : Nat) (
     have hc : isD c = true := hd c (by simp)
     rw [isD_iff] at hc
     simp only [capAcc, List.foldl_cons]
-    by_cases hlt : (a : Int) < 10000
+    by_cases hlt : (a : Int) < 1000000000000000
     · simp only [hlt, if_true]
       have e1 : (a : Int) * 10 + ((c : Int) - 48) = ((a * 10 + (c - 48) : Nat) : Int) := by omega
       rw [e1]
@@ -43,14 +43,15 @@ theorem capAcc_big (ds : List Nat) (hd : ∀ c ∈ ds, isD c = true) (a : Nat) (
     · simp only [hlt, if_false]
       exact ih (fun x hx => hd x (by simp [hx])) a ha (Or.inl (by omega))
 
-theorem capAcc_zero_big (ds : List Nat) (hd : ∀ c ∈ ds, isD c = true) (h : 100000 ≤ digitsVal ds) :
-    10000 ≤ capAcc 0 ds := by
+theorem capAcc_zero_big (ds : List Nat) (hd : ∀ c ∈ ds, isD c = true) (h : 10000000000000000 ≤ digitsVal ds) :
+    1000000000000000 ≤ capAcc 0 ds := by
   have := capAcc_big ds hd 0 (by omega) (Or.inr (by rw [← digitsVal_eq]; exact h))
   simpa using this
 
-/-- what the capped exponent loop leaves for a written exponent `ev` of magnitude 100000 or more: a value of the
-    same sign and magnitude at least 10000 -/
-def ExpSat (ev' ev : Int) : Prop := 100000 ≤ ev.natAbs → (0 < ev → 10000 ≤ ev') ∧ (ev < 0 → ev' ≤ -10000)
+/-- what the capped exponent loop leaves for a written exponent `ev` of magnitude `10^16` or more: a value of the
+    same sign and magnitude at least `10^15` -/
+def ExpSat (ev' ev : Int) : Prop :=
+  10000000000000000 ≤ ev.natAbs → (0 < ev → 1000000000000000 ≤ ev') ∧ (ev < 0 → ev' ≤ -1000000000000000)
 
 theorem expSign_cons (d : Nat) (r : List Nat) :
     expSign (d :: r) = if d = 43 then (1, 1) else if d = 45 then (-1, 1) else (1, 0) := by
@@ -96,7 +97,8 @@ theorem doubleExp_eq' (neg : Bool) (s : List Nat) (i man : Nat) (exp10 : Int) (t
     doubleExp neg s i man exp10 trunc =
       if takeDigits (s.tail.drop (expSign s.tail).2) = [] then .ret (.err errInvalidChar (i + 1 + (expSign s.tail).2))
       else .float { neg := neg, man := man,
-                    exp10 := exp10 + capAcc 0 (takeDigits (s.tail.drop (expSign s.tail).2)) * (expSign s.tail).1,
+                    exp10 := clampExp10
+                      (exp10 + capAcc 0 (takeDigits (s.tail.drop (expSign s.tail).2)) * (expSign s.tail).1),
                     trunc := trunc,
                     next := i + 1 + (expSign s.tail).2 + (takeDigits (s.tail.drop (expSign s.tail).2)).length } := by
   unfold doubleExp
@@ -107,7 +109,7 @@ theorem doubleExp_eq (neg : Bool) (c : Nat) (r : List Nat) (i man : Nat) (exp10 
     doubleExp neg (c :: r) i man exp10 trunc =
       if takeDigits (r.drop (expSign r).2) = [] then .ret (.err errInvalidChar (i + 1 + (expSign r).2))
       else .float { neg := neg, man := man,
-                    exp10 := exp10 + capAcc 0 (takeDigits (r.drop (expSign r).2)) * (expSign r).1,
+                    exp10 := clampExp10 (exp10 + capAcc 0 (takeDigits (r.drop (expSign r).2)) * (expSign r).1),
                     trunc := trunc,
                     next := i + 1 + (expSign r).2 + (takeDigits (r.drop (expSign r).2)).length } := by
   rw [doubleExp_eq']; rfl
@@ -149,15 +151,22 @@ theorem expTail_none (neg : Bool) (s : List Nat) (i man : Nat) (exp10 : Int) (tr
       · simp [hd0] at h
     · simp [scanExp, hc] at h
 
-/-- `ev'` is the value the capped loop produced: the written exponent when that is below 100000 in magnitude -/
+/-- `ev'` is the value the capped loop produced: the written exponent when that is below `10^16` in magnitude;
+    with an exponent part the sum is clamped to `±100000` -/
 theorem expTail_some (neg : Bool) (s : List Nat) (i man : Nat) (exp10 : Int) (trunc : Bool)
     (ex : Option (Int × Nat)) (h : scanExp s = some ex) :
     ∃ ev' : Int, expTail neg s i man exp10 trunc
-        = .float { neg := neg, man := man, exp10 := exp10 + ev', trunc := trunc, next := i + expLen ex } ∧
-      ((expVal ex).natAbs < 100000 → ev' = expVal ex) ∧ ev'.natAbs < 100000 ∧ ExpSat ev' (expVal ex) := by
+        = .float { neg := neg, man := man,
+                   exp10 := (if ex.isSome then clampExp10 (exp10 + ev') else exp10 + ev'),
+                   trunc := trunc, next := i + expLen ex } ∧
+      ((expVal ex).natAbs < 10000000000000000 → ev' = expVal ex) ∧ ev'.natAbs < 10000000000000000 ∧
+      ExpSat ev' (expVal ex) := by
   have hnone : ∀ (_ : isE (hd s) = false) (_ : ex = none), ∃ ev' : Int, expTail neg s i man exp10 trunc
-        = .float { neg := neg, man := man, exp10 := exp10 + ev', trunc := trunc, next := i + expLen ex } ∧
-      ((expVal ex).natAbs < 100000 → ev' = expVal ex) ∧ ev'.natAbs < 100000 ∧ ExpSat ev' (expVal ex) := by
+        = .float { neg := neg, man := man,
+                   exp10 := (if ex.isSome then clampExp10 (exp10 + ev') else exp10 + ev'),
+                   trunc := trunc, next := i + expLen ex } ∧
+      ((expVal ex).natAbs < 10000000000000000 → ev' = expVal ex) ∧ ev'.natAbs < 10000000000000000 ∧
+      ExpSat ev' (expVal ex) := by
     intro hE hex
     subst hex
     exact ⟨0, by simp [expTail, hE, expLen], by simp [expVal], by simp, fun h => by simp [expVal] at h⟩
@@ -176,17 +185,17 @@ theorem expTail_some (neg : Bool) (s : List Nat) (i man : Nat) (exp10 : Int) (tr
         have hb := capAcc_zero_bound ds hall
         refine ⟨capAcc 0 ds * (expSign r).1, ?_, ?_, ?_, ?_⟩
         · simp only [expTail, hd, List.headD_cons, hE, Bool.not_true, Bool.false_eq_true, if_false, doubleExp_eq, hds,
-            hd0, expLen]
+            hd0, expLen, Option.isSome_some, if_true]
           congr 2; omega
         · intro hlt
           simp only [expVal] at hlt ⊢
-          have hv : digitsVal ds < 100000 := by
+          have hv : digitsVal ds < 10000000000000000 := by
             rcases expSign_abs r with h1 | h1 <;> rw [h1] at hlt <;> omega
           rw [capAcc_zero ds hall hv, Int.mul_comm]
         · rcases expSign_abs r with h1 | h1 <;> rw [h1] <;> omega
         · intro hbig
           simp only [expVal] at hbig ⊢
-          have hv : 100000 ≤ digitsVal ds := by
+          have hv : 10000000000000000 ≤ digitsVal ds := by
             rcases expSign_abs r with h1 | h1 <;> rw [h1] at hbig <;> omega
           have hcap := capAcc_zero_big ds hall hv
           rcases expSign_abs r with h1 | h1 <;> rw [h1] <;> constructor <;> intro _ <;> omega
